@@ -50,6 +50,12 @@ def c19_order(p1: int, p2: int, p3: int, w1: int, w2: int, n1: int, n2: int, au:
         k = w.kernel
         k.behaviour = lambda i, argv: Beh(obey=0.0)
         hooks = None
+        failing = None
+        if S.get('hookfail'):
+            # the after_spawn hook of the FIRST-started watcher rejects its worker: that watcher's start is aborted without its own
+            # warm-up sleep; the next watcher must still wait the global warm-up
+            def rejecting(watcher=None, arbiter=None, hook_name=None, **kw):
+                return watcher.name != failing
         if hookcost:
             def slow_after_spawn(watcher=None, arbiter=None, hook_name=None, **kw):
                 w.clock.now += hookcost
@@ -60,6 +66,12 @@ def c19_order(p1: int, p2: int, p3: int, w1: int, w2: int, n1: int, n2: int, au:
         warm = {'wa': WARM[w1], 'wb': WARM[w2], 'wc': 0}
         nump = {'wa': n1, 'wb': n2, 'wc': 1}
         auto = {'wa': True, 'wb': au != 1, 'wc': au != 2}
+        if S.get('hookfail'):
+            ranked = sorted([nm for nm in names if auto[nm]], key=lambda nm: -prios[nm])
+            # (ties: any of the tied watchers may be first; the check then only needs SOME watcher to fail first -- pick a strict maximum)
+            if len(ranked) >= 2 and prios[ranked[0]] > prios[ranked[1]]:
+                failing = ranked[0]
+            hooks = {'after_spawn': (rejecting, False)}
         ws = [w.mk_watcher(nm, numprocesses=nump[nm], warmup_delay=warm[nm], priority=prios[nm], autostart=auto[nm],
                            graceful_timeout=0.2, hooks=hooks) for nm in names]
         try:
@@ -217,6 +229,9 @@ def plan(tier):
             sh.append({'trig': trig, 'gw': 0, 'dmax': 20})
             sh.append({'trig': trig, 'gw': 0, 'dmax': 20, 'victim': 'newest'})
     sh.append({'trig': 'boot', 'gw': 0, 'hookcost': 0.15, 'pace': True})
+    sh.append({'trig': 'boot', 'gw': 0.3, 'hookfail': True})
+    if not q:
+        sh.append({'trig': 'start_all', 'gw': 0.3, 'hookfail': True, 'full': True})
     if q:
         # (d split in two halves per configuration: twice the parallelism, same coverage)
         for lo, hi in ((0, 6), (7, 12)):
@@ -226,7 +241,7 @@ def plan(tier):
     return [
         Cond('c19_order', shards=sh, budget=300 if q else 2400, twins=2,
              bounds={'p1,p2,p3': 'R: all integers (ties included)', 'w1,w2': 'S: warm-up %r' % (WARM,), 'n1': 'S[1,3]', 'n2': 'S[1,2]',
-                     'au': 'S: which watcher has autostart off', 'trigger': 'S%r' % (TRIGGERS,), 'global warm-up': 'S{0, 0.3}',
+                     'au': 'S: which watcher has autostart off', 'trigger': 'S%r' % (TRIGGERS,), 'hookfail': 'S: the after_spawn hook of the first-started watcher rejects its worker', 'global warm-up': 'S{0, 0.3}',
                      'd': 'R[0,dmax] kernel call (of the sequence) at which the oldest / the newest live worker dies',
                      'quick': 'w1 in {0,0.5}, w2 = 0.2, n1 <= 2, n2 = 1, autostart off for at most wb; thorough: the full menus'}),
     ]
